@@ -582,6 +582,26 @@ theorem cmp_si (op : CmpOp) (a b : Operand) (ha : a.wf) (hb : b.wf) :
     | num n => cases op <;> simp [cmpOp, siCmp, siOf, Res.isError]
     | val y => cases op <;> simp [cmpOp, UVal.cmp, CmpOp.swap, siCmp, siOf, Res.isError, r1, r2, r3, r4]
 
+/-- **a plain number is compared as the rational it denotes.**  For ANY rational `n` — in particular an integer above
+`2^53` or a fraction that no double equals — `q op n` and `n op q` are the comparison of the stored magnitude with `n`
+itself: the number is not rounded (to a double or otherwise) on the way, so a number one unit (or a third of an ulp) off
+the magnitude compares as different, and the two operand orders agree. -/
+theorem cmp_number_is_exact (op : CmpOp) (x : UVal) (n : Rat) :
+    cmpOp op (.val x) (.num n) = .ok (.bool (cmpRat op x.v n)) ∧
+    cmpOp op (.num n) (.val x) = .ok (.bool (cmpRat op n x.v)) ∧
+    (cmpOp .lt (.val x) (.num n) = .ok (.bool true) ↔ x.v < n) ∧
+    (cmpOp .eq (.val x) (.num n) = .ok (.bool true) ↔ x.v = n) := by
+  refine ⟨by simp [cmpOp, UVal.cmp], ?_, by simp [cmpOp, UVal.cmp, cmpRat], by simp [cmpOp, UVal.cmp, cmpRat]⟩
+  cases op <;> simp [cmpOp, UVal.cmp, CmpOp.swap, cmpRat, eq_comm]
+
+/-- the class on the wire: `2^53 molecule` against `2^53 + 1` (an integer that is not a double), both orders, and against
+`2^53 + 1/3` -/
+example : cmpOp .lt (.val ⟨9007199254740992, ⟨⟨"m", "s", "molecule"⟩, ⟨0, 0, 1⟩⟩⟩) (.num 9007199254740993) = .ok (.bool true) ∧
+    cmpOp .ge (.val ⟨9007199254740992, ⟨⟨"m", "s", "molecule"⟩, ⟨0, 0, 1⟩⟩⟩) (.num 9007199254740993) = .ok (.bool false) ∧
+    cmpOp .gt (.num 9007199254740993) (.val ⟨9007199254740992, ⟨⟨"m", "s", "molecule"⟩, ⟨0, 0, 1⟩⟩⟩) = .ok (.bool true) ∧
+    cmpOp .le (.num (9007199254740992 + 1/3)) (.val ⟨9007199254740992, ⟨⟨"m", "s", "molecule"⟩, ⟨0, 0, 1⟩⟩⟩) = .ok (.bool false) := by
+  decide +kernel
+
 /-- different dimensions: the orderings raise, `==` is `False`, `!=` is `True` -/
 theorem cmp_other_dim (x y : UVal) (hd : x.u.dim ≠ y.u.dim) :
     cmpOp .eq (.val x) (.val y) = .ok (.bool false) ∧ cmpOp .ne (.val x) (.val y) = .ok (.bool true) ∧
